@@ -6,6 +6,10 @@
 // contracts answered: deposit counts, roots, emitted events as the repository's log decoding sees them, getLeafValue answers.
 // Nothing here re-computes a hash: every value is read from the chain (plus bridgesync.Bridge.Hash() of the decoded event,
 // recorded as a second opinion).
+//
+// Replay: accounts derive from the case's key seed, block times from the fixed genesis time, so a replayed input meets the same
+// addresses, timestamps, deposit counts, leaves and exit roots. Block hashes differ from run to run (the simulated beacon draws
+// prevRandao from crypto/rand), hence so do the L1 info leaves and roots: they are observations, compared afresh on every run.
 package main
 
 import (
